@@ -449,6 +449,12 @@ pub fn replication_histories(seed: u64, n: usize, max_len: u64, with_crash: Mode
                     let total: u64 = c.sim.h["W"].oracle.blocks.iter().take(horizon as usize).map(|b| b.len() as u64).sum();
                     if total > 0 { sk = format!("{}", r.below(total)); }
                 }
+                // a block or hash request may carry a seek as well: any byte below the horizon, i.e. inside the
+                // requested subtree, on its climb path, or in a sibling subtree (then the proof has its own seek nodes)
+                if kind < 8 && r.chance(1, 3) {
+                    let total: u64 = c.sim.h["W"].oracle.blocks.iter().take(horizon as usize).map(|b| b.len() as u64).sum();
+                    if total > 0 { sk = format!("{}", r.below(total)); *c.out.stats.entry(if kind < 6 { "block_with_seek" } else { "hash_with_seek" }.into()).or_insert(0) += 1; }
+                }
                 let ups = up.map(|(s, l)| format!("{s}:{l}")).unwrap_or("-".into());
                 if blk == "-" && hsh == "-" && sk == "-" && ups == "-" { continue; }
                 let o = c.run(format!("prove W {blk} {hsh} {sk} {ups}"));
@@ -520,7 +526,7 @@ fn flip(v: &mut Vec<u8>, r: &mut Rng) -> bool { if v.is_empty() { return false; 
 fn bump(x: &mut u64, r: &mut Rng) -> bool { if r.chance(1, 2) { *x += 1; true } else if *x > 0 { *x -= 1; true } else { *x += 1; true } }
 fn alter_nodes(ns: &mut Vec<Node>, r: &mut Rng, protect_len_below: usize) -> Option<&'static str> {
     let k = if ns.is_empty() { 0 } else { r.below(ns.len() as u64) as usize };
-    match r.below(8) {
+    match r.below(10) {
         0 if !ns.is_empty() => { let mut h = ns[k].hash().to_vec(); flip(&mut h, r); ns[k] = Node::new(ns[k].index(), h, ns[k].len()); Some("node-hash-flip") }
         1 if !ns.is_empty() => { let mut i = ns[k].index(); bump(&mut i, r); ns[k] = Node::new(i, ns[k].hash().to_vec(), ns[k].len()); Some("node-index") }
         2 if !ns.is_empty() && k >= protect_len_below => { let mut l = ns[k].len(); bump(&mut l, r); ns[k] = Node::new(ns[k].index(), ns[k].hash().to_vec(), l); Some("node-length") }
@@ -529,6 +535,16 @@ fn alter_nodes(ns: &mut Vec<Node>, r: &mut Rng, protect_len_below: usize) -> Opt
         5 if ns.len() >= 2 => { let k = k.min(ns.len() - 2); ns.swap(k, k + 1); Some("node-swap") }
         6 => { let idx = if ns.is_empty() { r.below(40) } else { ns[k].index() + 2 }; ns.insert(k.min(ns.len()), Node::new(idx, r.bytes(32), r.below(20))); Some("node-insert") }
         7 if !ns.is_empty() => { ns[k] = Node::new(ns[k].index(), vec![0u8; 32], ns[k].len()); Some("node-hash-zero") }
+        // hashes of another length than 32 bytes (the API accepts them; `Hash::parent` concatenates the two child
+        // hashes without length prefixes, so two siblings re-cut at 31/33 bytes still hash to the real parent)
+        8 if ns.len() >= 2 => {
+            let k = k.min(ns.len() - 2);
+            let mut a = ns[k].hash().to_vec(); let mut b = ns[k + 1].hash().to_vec();
+            if r.chance(1, 2) { if let Some(x) = a.pop() { b.insert(0, x); } } else if !b.is_empty() { a.push(b.remove(0)); }
+            ns[k] = Node::new(ns[k].index(), a, ns[k].len()); ns[k + 1] = Node::new(ns[k + 1].index(), b, ns[k + 1].len());
+            Some("node-hash-recut")
+        }
+        9 if !ns.is_empty() => { let mut h = ns[k].hash().to_vec(); if r.chance(1, 2) { h.pop(); } else { h.push(r.below(256) as u8); } ns[k] = Node::new(ns[k].index(), h, ns[k].len()); Some("node-hash-length") }
         _ => None,
     }
 }
@@ -659,6 +675,23 @@ pub fn adversarial_histories(seed: u64, n: usize, max_len: u64, requests_only: b
                     c.sim.proof_honest = false;
                     let o = c.run(format!("applyp R {}", crate::sim::proof_full_txt(&q)));
                     if o.starts_with("ok true") { state_changed = true; *c.out.stats.entry(format!("altaccepted_{kind}")).or_insert(0) += 1; }
+                }
+            }
+            // the 31/33-byte re-cut of every adjacent node pair of one section (sibling pairs still hash to the real
+            // parent, so verification passes and the oplog encoder is what has to refuse the nodes)
+            if r.chance(1, 2) {
+                let sec = r.below(4);
+                let npairs = { let ns = match sec { 0 => honest.block.as_ref().map(|b| &b.nodes), 1 => honest.hash.as_ref().map(|b| &b.nodes), 2 => honest.seek.as_ref().map(|b| &b.nodes), _ => honest.upgrade.as_ref().map(|b| &b.nodes) }; ns.map(|n| n.len().saturating_sub(1)).unwrap_or(0) };
+                for k in 0..npairs.min(4) {
+                    let mut q = honest.clone();
+                    { let ns = match sec { 0 => q.block.as_mut().map(|b| &mut b.nodes), 1 => q.hash.as_mut().map(|b| &mut b.nodes), 2 => q.seek.as_mut().map(|b| &mut b.nodes), _ => q.upgrade.as_mut().map(|b| &mut b.nodes) }.unwrap();
+                      let mut a = ns[k].hash().to_vec(); let mut b = ns[k + 1].hash().to_vec();
+                      if let Some(x) = a.pop() { b.insert(0, x); }
+                      ns[k] = Node::new(ns[k].index(), a, ns[k].len()); ns[k + 1] = Node::new(ns[k + 1].index(), b, ns[k + 1].len()); }
+                    *c.out.stats.entry("alt_node-hash-recut-pair".into()).or_insert(0) += 1;
+                    c.sim.proof_honest = false;
+                    let o = c.run(format!("applyp R {}", crate::sim::proof_full_txt(&q)));
+                    if o.starts_with("ok true") { state_changed = true; }
                 }
             }
             if let Some(o) = other.as_ref() { if r.chance(1, 3) { *c.out.stats.entry("alt_other-writer-proof".into()).or_insert(0) += 1; c.sim.proof_honest = false; let out = c.run(format!("applyp R {}", crate::sim::proof_full_txt(o))); if out.starts_with("ok true") { state_changed = true; } } }
